@@ -93,7 +93,9 @@ MeshList == <<
     Poly("tetrakis_cube_cut5",           CutEvery(TetrakisCube, 5), 0),              \* 14 partial triangles
     Poly("truncated_cube_split_minus_node0_r3", Rot(WithoutNode(TruncCubeSplit, 0), 3), 0),  \* 15 partial 3/7/8, node 0 unused
     Poly("octahedron_r5",                Rot(Octahedron, 5), 0),                     \* 16
-    Poly("truncated_octahedron_split_r20", Rot(TruncOctaSplit, 20), 0)               \* 17
+    Poly("truncated_octahedron_split_r20", Rot(TruncOctaSplit, 20), 0),              \* 17
+    Poly("cube_minus_node0",             WithoutNode(Cube, 0), 0)                    \* 18 partial, uniform, node 0 unused:
+                                                                                     \*    the least stored index is not the index base
   >>
 
 NN(m)        == Len(m.nodes)
@@ -151,12 +153,21 @@ Applies(m, route) ==
 
 (* ---- UGRID ---------------------------------------------------------------- *)
 UgridDs(m) ==
-    { d \in [ start : { "0", "1", "absent" }, fill : { "none", "m1", "p999", "nan" },
+    { d \in [ start : { "0", "1", "absent" }, fill : { "none", "m1", "p999", "nan", "bigfill" },
               dtype : { "int32", "int64", "float64" }, names : { "standard", "arbitrary" },
-              topo : { "attr", "cfrole" }, lon : { "pm180", "p360" }, extras : { "none", "edges" } ] :
+              topo : { "attr", "cfrole" }, lon : { "pm180", "p360" }, extras : { "none", "edges", "edge_only" },
+              layout : { "rows", "transposed" } ] :
         /\ (d.fill = "nan" => d.dtype = "float64")         \* NaN needs float storage
-        /\ (d.fill = "none" => Uniform(m)) }                \* without a fill value nothing can be padded
-UgridFill(d) == CASE d.fill = "m1" -> -1 [] d.fill = "p999" -> 999 [] d.fill = "nan" -> NANCODE [] OTHER -> NOFILL
+        /\ (d.fill = "bigfill" => d.dtype = "int64")       \* the platform fill value only fits the platform integer
+        /\ (d.fill = "none" => Uniform(m))                 \* without a fill value nothing can be padded
+        \* a table stored [corner, face] is only well-formed with a declared face_dimension (kept to one
+        \* naming / extras variant: the knob is independent of those)
+        /\ (d.layout = "transposed" => d.names = "arbitrary" /\ d.extras = "none")
+        \* only the edge table supplied (face_edge is then derived by the Grid and must index THAT table);
+        \* kept to one naming variant
+        /\ (d.extras = "edge_only" => d.names = "standard" /\ d.topo = "attr" /\ d.lon = "pm180") }
+UgridFill(d) == CASE d.fill = "m1" -> -1 [] d.fill = "p999" -> 999 [] d.fill = "nan" -> NANCODE
+                  [] d.fill = "bigfill" -> BIGFILL [] OTHER -> NOFILL
 UgridBase(d) == IF d.start = "1" THEN 1 ELSE 0              \* absent => 0-based: the UGRID default
 UgridStored(m, d) ==
     LET b  == UgridBase(d)
@@ -164,11 +175,14 @@ UgridStored(m, d) ==
         E  == SrcEdges(m.faces)
         ef == d.extras = "edges" /\ (d.fill # "none" \/ IsClosed(m))
     IN [ route |-> "ugrid",
-         attrs |-> Opt(d.start # "absent", [ start_index |-> b ]) @@ Opt(d.fill \in { "m1", "p999" }, [ fill_value |-> fv ]),
+         attrs |-> Opt(d.start # "absent", [ start_index |-> b ]) @@ Opt(d.fill \in { "m1", "p999", "bigfill" }, [ fill_value |-> fv ]),
          dtype |-> d.dtype, names |-> d.names, topo |-> d.topo, lon |-> d.lon,
-         face_node |-> EncTable(m.faces, Wd(m), b, fv),
+         \* face_axis: which axis of the stored face table the declared face_dimension is (1 = rows)
+         face_axis |-> IF d.layout = "transposed" THEN 2 ELSE 1,
+         face_node |-> IF d.layout = "transposed" THEN Transposed(EncTable(m.faces, Wd(m), b, fv), Wd(m))
+                       ELSE EncTable(m.faces, Wd(m), b, fv),
          centres   |-> d.extras = "edges",
-         edge_node |-> IF d.extras = "edges" THEN EncTable(E, 2, b, fv) ELSE <<>>,
+         edge_node |-> IF d.extras # "none" THEN EncTable(E, 2, b, fv) ELSE <<>>,
          face_edge |-> IF d.extras = "edges" THEN EncTable(SrcFaceEdges(m.faces, E), Wd(m), b, fv) ELSE <<>>,
          edge_face |-> IF ef THEN EncTable(SrcEdgeFaces(m.faces, E), 2, b, fv) ELSE <<>> ]
 UgridDecodeTable(src, T) ==
@@ -179,7 +193,8 @@ UgridDecodeTable(src, T) ==
 (* ---- from_topology (explicit arrays) ----------------------------------------- *)
 TopoDs(m) ==
     { d \in [ fill : { "none", "m1", "bigfill" }, start : { "0", "1" }, dtype : { "int32", "int64" },
-              via : { "classmethod", "open_grid" }, extras : { "none", "edges" } ] :
+              via : { "classmethod", "open_grid" }, extras : { "none", "edges", "edge_only" } ] :
+        /\ (d.extras = "edge_only" => d.via = "classmethod")
         /\ (d.fill = "none" => Uniform(m))
         /\ (d.fill = "bigfill" => d.dtype = "int64") }      \* the platform fill only fits the platform integer
 TopoFill(d) == CASE d.fill = "m1" -> -1 [] d.fill = "bigfill" -> BIGFILL [] OTHER -> NOFILL
@@ -189,7 +204,7 @@ TopoStored(m, d) ==
         E == SrcEdges(m.faces)
     IN [ route |-> "topology", fill_value |-> fv, start_index |-> b, dtype |-> d.dtype, via |-> d.via,
          face_node |-> EncTable(m.faces, Wd(m), b, fv),
-         edge_node |-> IF d.extras = "edges" THEN EncTable(E, 2, b, fv) ELSE <<>>,
+         edge_node |-> IF d.extras # "none" THEN EncTable(E, 2, b, fv) ELSE <<>>,
          face_edge |-> IF d.extras = "edges" THEN EncTable(SrcFaceEdges(m.faces, E), Wd(m), b, fv) ELSE <<>> ]
 TopoDecodeTable(src, T) ==
     [ r \in 1..Len(T) |-> [ j \in 1..Len(T[r]) |->
@@ -382,7 +397,7 @@ StoredSrc(m, route, d) ==
 
 \* what the stored face table means, by the format's own rules (reads the source only)
 Decode(src) ==
-    CASE src.route = "ugrid"     -> UgridDecodeTable(src, src.face_node)
+    CASE src.route = "ugrid"     -> UgridDecodeTable(src, IF src.face_axis = 2 THEN Untransposed(src.face_node) ELSE src.face_node)
       [] src.route = "topology"  -> TopoDecodeTable(src, src.face_node)
       [] src.route = "mpas"      -> MpasDecodeCounted(src.verticesOnCell, src.nEdgesOnCell)
       [] src.route = "mpas_dual" -> MpasDecodeZeros(src.cellsOnVertex)
@@ -420,8 +435,12 @@ Carried(m, route, d) ==
         ef == [ edge_face |-> Pad(SrcEdgeFaces(F, E), 2) ]
         nf == [ node_face |-> PadMax(SrcNodeFaces(F, NN(m))) ]
         ce == [ centres |-> TRUE ]
+        \* only the edge table is supplied: it is carried over, and the face_edge table the Grid derives later
+        \* must index it (derive_fe asks the harness to derive face_edge BEFORE it reads the edge table)
+        eo == [ edge_node |-> E, derive_fe |-> TRUE ]
     IN CASE route = "ugrid"     -> Opt(d.extras = "edges", edges @@ ce) @@ Opt(d.extras = "edges" /\ (d.fill # "none" \/ IsClosed(m)), ef)
-         [] route = "topology"  -> Opt(d.extras = "edges", edges)
+                                   @@ Opt(d.extras = "edge_only", eo)
+         [] route = "topology"  -> Opt(d.extras = "edges", edges) @@ Opt(d.extras = "edge_only", eo)
          [] route = "mpas"      -> nf @@ Opt(d.extras = "edges", edges @@ ef @@ ce)
          [] route = "mpas_dual" -> nf @@ ce
          [] route = "scrip"     -> ce
@@ -440,7 +459,14 @@ Tags(m, route, d) ==
     [ mixed |-> ~Uniform(m), node0_unused |-> Node0Unused(m), partial |-> ~IsClosed(m),
       nblocks |-> IF route = "exodus" THEN (IF Len(ExoGroups(m, d)) > 1 THEN ">1" ELSE "1") ELSE "-",
       multipart |-> route = "geo" /\ \E g \in Range(GeoGrouping(m, d)) : Len(g) > 1,
-      based |-> CASE route \in { "ugrid", "topology", "esmf" } -> d.start [] OTHER -> "-" ]
+      based |-> CASE route \in { "ugrid", "topology", "esmf" } -> d.start [] OTHER -> "-",
+      \* a UGRID source without start_index in which some table's least stored value is not the index base 0
+      \* (a padded table: the fill value; a table that never mentions element 0)
+      least_not_base |-> route = "ugrid" /\ d.start = "absent" /\
+                         LET src == UgridStored(m, d)
+                             off(T) == T # <<>> /\ \A r \in 1..Len(T) : \A j \in 1..Len(T[r]) : T[r][j] # 0
+                             padded(T) == T # <<>> /\ \E r \in 1..Len(T) : \E j \in 1..Len(T[r]) : T[r][j] = UgridFill(d)
+                         IN \E T \in { src.face_node, src.edge_node, src.face_edge, src.edge_face } : off(T) \/ padded(T) ]
 
 (* ======================================================================= *)
 (* state space: (mesh, route) then one dialect each                        *)
